@@ -58,6 +58,43 @@ def check_dir(ctx, od, name, user_headers):
     checked = undec = 0
     fails, notes = [], []
     prefix = None
+    # the paired type-code tables: the SH_TYPE_* parameters of a Fortran module and the SH_TYPE_* macros of the C header name the
+    # same codes (the Fortran side stores them in the array descriptor, the C side dispatches on them)
+
+    def table(text, pat):
+        raw = dict((m.group(1), m.group(2).strip()) for m in re.finditer(pat, text, flags=re.M))
+        val = {}
+
+        def ev(name, depth=0):
+            if name in val:
+                return val[name]
+            e = raw.get(name)
+            if e is None or depth > 8:
+                return None
+            tot = 0
+            for term in e.split("+"):
+                term = term.strip()
+                tv = int(term) if re.match(r"^\d+$", term) else ev(term, depth + 1)
+                if tv is None:
+                    return None
+                tot += tv
+            val[name] = tot
+            return tot
+        for k in raw:
+            ev(k)
+        return val
+    ctab = {}
+    for t in texts:
+        ctab.update(table(t, r"^#define\s+(SH_TYPE_\w+)\s+([\w+ ]+?)\s*$"))
+    for f in fs:
+        ftab = table(open(f, errors="replace").read().replace("&", ""), r"^\s*(SH_TYPE_\w+)\s*=\s*([\w+ ]+?)\s*,?\s*$")
+        for k, v in sorted(ftab.items()):
+            if k in ctab:
+                ctx.count(1, ("typecode", name, k))
+                ctx.hist("type-code-pair")
+                if ctab[k] != v:
+                    fails.append({"input": name, "module": os.path.basename(f), "what": "a type code differs between the Fortran module and the C header",
+                                  "code": k, "fortran": v, "c": ctab[k]})
     for f in fs:
         p0 = subprocess.run(base + [f], capture_output=True, text=True, cwd=od)
         if p0.returncode != 0:
